@@ -237,6 +237,9 @@ class C16(Check):
         # an fsync that fails (nothing flushed) on each kind of file during a commit
         for kind in ("metadata", "manifest", "manifest_list", "data", "hint", "marker"):
             yield {"variant": f"fault:{kind}"}
+        # a short write (the kernel takes only part of the buffer) on each kind of metadata-plane file
+        for kind in ("metadata", "manifest", "manifest_list", "hint", "marker"):
+            yield {"variant": f"shortwrite:{kind}"}
 
     def run_case(self, case: Any, res: CaseResult, tier: str) -> None:
         import datashard as ds
@@ -256,11 +259,11 @@ class C16(Check):
             relevant = [e for e in events if (e.fdpath and e.fdpath.startswith(root)) or any(x.startswith(root) for x in e.paths)
                         or (e.call == "write" and e.data and e.data.startswith(b"MARK "))]
             res.count("trace_events", len(relevant))
-            if case["variant"].startswith("fault:"):
+            if case["variant"].startswith(("fault:", "shortwrite:")):
                 marks = [e.data.decode(errors="replace").strip() for e in relevant
                          if e.call == "write" and e.data and e.data.startswith(b"MARK ")]
                 if "MARK fault_fired" not in marks:
-                    res.inconclusive.append(f"fsync fault for {case['variant']} never fired")
+                    res.inconclusive.append(f"injected fault for {case['variant']} never fired")
                     return
                 res.count("fsync_faults_fired")
                 res.count("faulted_appends_acked" if any("ACKED" in m for m in marks) else "faulted_appends_raised")
